@@ -28,7 +28,6 @@ import (
 	"time"
 
 	"perkeep.org/pkg/auth"
-	"perkeep.org/pkg/blob"
 	"perkeep.org/pkg/schema"
 	"perkeep.org/pkg/serverinit"
 
@@ -318,6 +317,8 @@ var families = []family{
 	{name: "help-clientconfig", suffix: lit("?clientConfig=true")},
 	{name: "importer-flickr", suffix: lit("flickr/")},
 	{name: "setup", suffix: lit("setup")},
+	// on /debug/pprof/ this is the dump that /debug/goroutines guards with auth (NOTES.md, observation)
+	{name: "pprof-goroutine", suffix: lit("goroutine?debug=1")},
 	{name: "sync-validate", suffix: lit("?mode=validate"), post: func(s *srv) (string, []byte) { return form("mode", "validate", "token", "x") }},
 	{name: "share-claim", suffix: func(s *srv) string { return s.S.Ref.String() }},
 	{name: "share-target-via", suffix: func(s *srv) string { return s.F.Ref.String() + "?via=" + s.S.Ref.String() }},
@@ -608,6 +609,9 @@ func (s *srv) judgeUnauth(q areq, r aresp) (string, *problem) {
 		// public by design (landing page, share endpoint, publisher app, go debug vars):
 		// anything goes as long as no planted data shows (checked above) and, for the
 		// share endpoint, nothing at all is served for a chain that is not valid.
+		if os.Getenv("C17_DUMP") != "" && ok2xx {
+			fmt.Fprintf(os.Stderr, "PUBLIC2XX %s %s %s %d\n", pat, q.Family, q.Method, r.Status)
+		}
 		if r.Pattern == s.share && s.share != "" && ok2xx {
 			return cls, &problem{"invalid-share-served", q.Family + "|" + q.Method, fmt.Sprintf("%s: not a valid chain but status %d", where, r.Status)}
 		}
@@ -618,8 +622,11 @@ func (s *srv) judgeUnauth(q areq, r aresp) (string, *problem) {
 		return cls, nil
 	case ok2xx:
 		return cls, &problem{"unauth-2xx", pat + "|" + q.Method, fmt.Sprintf("%s: status %d without credentials: %q", where, r.Status, clip(r.Body))}
-	case r.Status == 400 || r.Status == 404 || r.Status == 405 || r.Status/100 == 3:
-		// refused before authentication was even looked at (unroutable path): carries nothing
+	case r.Status/100 == 3:
+		// the mux's own redirect ("/status" -> "/status/"): no handler ran, carries nothing
+		if os.Getenv("C17_DUMP") != "" {
+			fmt.Fprintf(os.Stderr, "LENIENT %s %s %s %d\n", pat, q.Family, q.Method, r.Status)
+		}
 		return cls, nil
 	default:
 		return cls, &problem{"unauth-not-refused", fmt.Sprintf("%s|%s|%d", pat, q.Method, r.Status), fmt.Sprintf("%s: status %d is not a refusal: %q", where, r.Status, clip(r.Body))}
@@ -942,5 +949,3 @@ func replayAuth(res *vk.Result, r map[string]any) {
 	}
 	runItem(res, name, mode, q)
 }
-
-var _ = blob.Ref{}
